@@ -195,6 +195,7 @@ macro_rules! shape {
     ($name:ident, $v0:expr, $b1:expr, $b2:expr, $sealed:expr, $p256:expr) => {
         #[kani::proof]
         #[kani::stub(alloc::fmt::format, crate::kh_support::fmt_format_stub)]
+        #[kani::stub(zeroize::optimization_barrier, crate::kh_support::barrier_stub)]
         #[kani::unwind(34)]
         fn $name() {
             walk($v0, $b1, $b2, $sealed, $p256);
